@@ -96,3 +96,51 @@ VARIANTS += [
       ")) / 3.0) * pi_tsplib) / 180.0", "silent", "",
       "behaviour-preserving rewrite of the conversion"),
 ]
+
+VARIANTS += [
+    V("points-matrix-not-symmetric", I, "            matrix[j, i] = dist\n",
+      "", "fire", "D18.5"),
+    V("points-row-index-not-checked", I,
+      "                or (row[0] != index):", "                or (row[0] "
+      "== index):", "fire", "D18.5"),
+    V("points-index-kept-as-coordinate", I,
+      "        coordinates.append(row[1:])", "        coordinates.append("
+      "row[0:])", "fire", "D18.5"),
+    V("points-dispatch-arguments-swapped", I,
+      "        return __matrix_from_points(n_cities, coord_dim, stream, "
+      "dist_fun)",
+      "        return __matrix_from_points(coord_dim, n_cities, stream, "
+      "dist_fun)", "fire", "D18.5"),
+    V("type-branch-taken-for-any-type", I,
+      "    if (edge_weight_type == __EWT_EUC_2D) \\\n            and (",
+      "    if (edge_weight_type == __EWT_EUC_2D) \\\n            or (",
+      "fire", "D18.1"),
+    V("ints-dropped-by-appender", I, "            fwd(i)\n",
+      "            pass\n", "fire", "D18.6"),
+    V("reader-stops-too-early-polarity", I, "        if len(res) == n:\n"
+      "            break", "        if len(res) != n:\n            break",
+      "fire", "D18.6"),
+    V("tokeniser-does-not-advance", I, "        idx = next_space\n", "",
+      "fire", "D18.6"),
+    V("header-dimension-stored-as-type", I,
+      "                the_n_cities = check_to_int_range(value, "
+      "\"dimension\",", "                the_ewt = check_to_int_range(value,"
+      " \"dimension\",", "fire", "D18.7"),
+    V("header-reader-gets-format-for-type", I,
+      "            the_matrix = _matrix_from_edge_weights(\n"
+      "                the_n_cities, the_ewt, the_ewf, stream)",
+      "            the_matrix = _matrix_from_edge_weights(\n"
+      "                the_n_cities, the_ewf, the_ewt, stream)", "fire",
+      "D18.7"),
+    V("header-value-loses-first-character", I,
+      "            value: str = line[sep_idx + 1:].strip()",
+      "            value: str = line[sep_idx + 2:].strip()", "fire",
+      "D18.7"),
+    V("header-stops-after-name", I,
+      "                the_name = value\n                continue",
+      "                the_name = value\n                break", "fire",
+      "D18.7"),
+    V("header-first-name-rejected", I,
+      "                if the_name is not None:",
+      "                if the_name is None:", "fire", "D18.7"),
+]
